@@ -1,4 +1,5 @@
 """C11 -- stream framing is independent of transport fragmentation (exhaustive 2/3-way cuts + drawn many-way cuts)."""
+import hashlib
 import io
 import itertools
 import struct
@@ -208,6 +209,44 @@ def exh_stream(M, i):
     return (b"".join(frames) if kind == "none" else corruptions(frames, k, kind)), frames, kind, k
 
 
+def run_large(res, tier, seed):
+    """several LARGE messages (70 kB .. 1 MB: inventories of thousands of items, as a bulk download produces them) on one
+    connection, read the way a socket delivers them (1024 octets at a time) and with cuts right after each header: whatever
+    buffering the receiver does for big bodies must be reusable for the next one"""
+    import random
+    RP, M = mods()
+    rnd = random.Random(env.subseed(seed, ID, "large"))
+    h = M.MessageHeader(1, 2, 0, 3)
+
+    def inv(n, salt):
+        return R.frame(h.serialize() + M.InventoryMessage([M.InventoryItem(M.DATA_BLOCK, hashlib.sha256(b"%d.%d" % (salt, i)).digest()) for i in range(n)]).serialize())
+
+    small = R.frame(h.serialize() + M.GetPeersMessage().serialize())
+    plans = [[2100, 2100], [2100, 4000, 2050], [30000, 2100], [1950, 2100, 1950, 2100]] if tier == "quick" else \
+            [[2100, 2100], [2100, 4000, 2050], [30000, 2100], [1950, 2100, 1950, 2100], [6000] * 5, [2100, 30, 2100], [30000, 30000]]
+    for pi, plan in enumerate(plans):
+        frames = []
+        for j, n in enumerate(plan):
+            frames.append(inv(n, pi * 10 + j))
+            if rnd.random() < 0.5:
+                frames.append(small)
+        frames.append(small)
+        for kind in ("none", "len_over", "magic"):
+            stream = b"".join(frames) if kind == "none" else corruptions(frames, len(frames) - 1, kind)
+            exp, trig = expected(M, stream)
+            starts = [0] + list(itertools.accumulate(len(f) for f in frames))[:-1]
+            cutsets = [tuple(range(1024, len(stream), 1024)),                                     # what recv(1024) gives
+                       tuple(sorted({st_ + 8 for st_ in starts if 0 < st_ + 8 < len(stream)})),     # right after every header
+                       tuple(sorted({st_ + d for st_ in starts for d in (4, 8, 9) if 0 < st_ + d < len(stream)}))]
+            for _ in range(3):
+                cutsets.append(tuple(sorted({st_ + rnd.choice([1, 7, 8, 8, 53, 61, 1024, 70000]) for st_ in starts if 0 < st_ + 8 < len(stream)} & set(range(1, len(stream))))))
+            for cuts in cutsets:
+                check(res, RP, stream, cuts, exp, trig, lambda: {"large": pi, "kind": kind, "cuts": list(cuts)[:40]})
+                res.evaluations += 1
+                res.nontrivial("large%d.%s.%d" % (pi, kind, len(cuts)))
+    res.count("large_message_streams", len(plans) * 3)
+
+
 def run(shard, tier, seed):
     RP, M = mods()
     res = Result()
@@ -237,6 +276,7 @@ def run(shard, tier, seed):
         return res
     if shard["kind"] == "limit":
         run_limit(res, tier, seed)
+        run_large(res, tier, seed)
         return res
     if shard["kind"] == "rand":
         from vf.props import c07
@@ -350,6 +390,8 @@ def replay(case):
     res = Result()
     if "limit_case" in case or "limit_const" in case:
         run_limit(res, "quick", 1)
+    elif "large" in case:
+        run_large(res, "quick", int(case.get("seed", 1)))
     elif "stream" in case:
         stream = bytes.fromhex(case["stream"])
         exp, trig = expected(M, stream)
